@@ -132,10 +132,7 @@ public:
 			dispatcher->appendListener(event, listener)
 		};
 
-		{
-			std::unique_lock<typename DispatcherType::Mutex> lock(itemListMutex);
-			itemList.push_back(item);
-		}
+		doAddItem(item);
 
 		return item.handle;
 	}
@@ -151,10 +148,7 @@ public:
 			dispatcher->prependListener(event, listener)
 		};
 		
-		{
-			std::unique_lock<typename DispatcherType::Mutex> lock(itemListMutex);
-			itemList.push_back(item);
-		}
+		doAddItem(item);
 		
 		return item.handle;
 	}
@@ -171,10 +165,7 @@ public:
 			dispatcher->insertListener(event, listener, before)
 		};
 		
-		{
-			std::unique_lock<typename DispatcherType::Mutex> lock(itemListMutex);
-			itemList.push_back(item);
-		}
+		doAddItem(item);
 		
 		return item.handle;
 	}
@@ -185,6 +176,31 @@ public:
 			return dispatcher->removeListener(event, handle);
 		}
 		return false;
+	}
+
+private:
+	void doAddItem(const Item & item)
+	{
+		// The listener is already in the dispatcher. If it can't be recorded here (push_back throws),
+		// it must be removed again, otherwise the remover would never remove it.
+		struct Rollback
+		{
+			~Rollback() {
+				if(dispatcher != nullptr) {
+					dispatcher->removeListener(item.event, item.handle);
+				}
+			}
+
+			DispatcherType * dispatcher;
+			const Item & item;
+		} rollback { dispatcher, item };
+
+		{
+			std::unique_lock<typename DispatcherType::Mutex> lock(itemListMutex);
+			itemList.push_back(item);
+		}
+
+		rollback.dispatcher = nullptr;
 	}
 
 private:
@@ -276,10 +292,7 @@ public:
 			callbackList->append(callback)
 		};
 
-		{
-			std::unique_lock<typename CallbackListType::Mutex> lock(itemListMutex);
-			itemList.push_back(item);
-		}
+		doAddItem(item);
 
 		return item.handle;
 	}
@@ -293,10 +306,7 @@ public:
 			callbackList->prepend(callback)
 		};
 
-		{
-			std::unique_lock<typename CallbackListType::Mutex> lock(itemListMutex);
-			itemList.push_back(item);
-		}
+		doAddItem(item);
 
 		return item.handle;
 	}
@@ -311,10 +321,7 @@ public:
 			callbackList->insert(callback, before)
 		};
 
-		{
-			std::unique_lock<typename CallbackListType::Mutex> lock(itemListMutex);
-			itemList.push_back(item);
-		}
+		doAddItem(item);
 
 		return item.handle;
 	}
@@ -325,6 +332,31 @@ public:
 			return callbackList->remove(handle);
 		}
 		return false;
+	}
+
+private:
+	void doAddItem(const Item & item)
+	{
+		// The callback is already in the callback list. If it can't be recorded here (push_back throws),
+		// it must be removed again, otherwise the remover would never remove it.
+		struct Rollback
+		{
+			~Rollback() {
+				if(callbackList != nullptr) {
+					callbackList->remove(item.handle);
+				}
+			}
+
+			CallbackListType * callbackList;
+			const Item & item;
+		} rollback { callbackList, item };
+
+		{
+			std::unique_lock<typename CallbackListType::Mutex> lock(itemListMutex);
+			itemList.push_back(item);
+		}
+
+		rollback.callbackList = nullptr;
 	}
 
 private:
